@@ -50,6 +50,11 @@ pub fn build_with_cancel<D: Distance>(
     if let Some(t) = tmpdir {
         writer.set_tmpdir(t);
     }
+    build_on::<D>(wtxn, &writer, opts, cancel_at)
+}
+
+/// Same, on a Writer the caller keeps.
+pub fn build_on<D: Distance>(wtxn: &mut RwTxn, writer: &Writer<D>, opts: &BuildOpts, cancel_at: Option<u64>) -> BuildRun {
     let polls = AtomicU64::new(0);
     let step = AtomicU8::new(255);
     let step_at_cancel = AtomicU8::new(255);
